@@ -68,6 +68,9 @@ def r1(ctx, prog, ev, rep):
         good = lt is not None and (("QueryRef<'%s, T>" % lt) in out or ("&'%s T" % lt) in out)
         rep.check(good, "C01-R1", "sig:%s" % fn, prog.loc_of(p), it["sig_s"], "result lifetime is not the document's: %s" % it["sig_s"])
     q = prog.adts.get("crate::query::QueryRef")
+    if q is None:
+        cands = [a_ for p_, a_ in prog.adts.items() if p_.startswith("crate::") and p_.endswith("::QueryRef")]
+        q = cands[0] if len(cands) == 1 else None     # the type moved to another module (it is re-exported under its old path)
     good = q is not None and re.fullmatch(r"&'\w+ T", q["variants"][0]["fields"][0]["ty_s"]) is not None
     rep.check(good, "C01-R1", "QueryRef.0", "src/query.rs", "&'a T", "QueryRef's value field is not a borrow of the data type")
     # ban list
